@@ -6,6 +6,7 @@
    Serves C01, C02, C03, C11. *)
 open Common
 open Mtbl_model
+type string = Stdlib.String.t
 open Gen
 
 external c_reader_init : string -> bool -> bool -> nativeint = "vp_reader_init"
